@@ -51,8 +51,9 @@ def nullLoop : List TxIn → Res Unit
 def checkTx (p : ChainParams) (t : Tx) : Res Unit :=
   if t.vin.length = 0 then reject
   else if t.vout.length = 0 then reject
+  else if !ctorValid t then .error .valueerr       -- base_tx = CTransaction(vin, vout, nLockTime, nVersion)
   else
-    -- base_tx = CTransaction(vin, vout, nLockTime, nVersion); len(base_tx.serialize())
+    -- len(base_tx.serialize())
     match serTx t.strip with
     | .error e => .error e
     | .ok base =>
